@@ -446,7 +446,7 @@ func (a *analyzer) expr(n *Node) {
 			case "eval":
 				a.prog.HasDirectEval = true
 			case "require":
-				if len(n.List) == 1 {
+				if len(n.List) == 1 && !n.Has(FlagOptional) {
 					if spec, ok := a.p.constString(n.List[0]); ok {
 						a.requires = append(a.requires, requireCandidate{r, n, spec, n.List[0].Start})
 					}
